@@ -57,6 +57,9 @@ type c14Case struct {
 	N     int `json:"n"`
 	Graph int `json:"graph"` // bitmask over ordered pairs
 	Human int `json:"human"` // -1 none, else index
+	// AllHidden: every endpoint is ~hidden (no call is drawn; the builder must still terminate on
+	// pass-through cycles whose calls it never records)
+	AllHidden bool `json:"allhidden,omitempty"`
 }
 
 var c14Apps = []string{"Ns :: A", "Ns :: B", "Cx", "Dx"}
@@ -83,6 +86,9 @@ func (c14) Cases(tier string, emit func(string, interface{})) {
 		for h := -1; h < n; h++ {
 			emit("n3", c14Case{N: n, Graph: g, Human: h})
 		}
+	}
+	for g := 1; g < 1<<uint(len(c14Pairs(n))); g++ {
+		emit("n3hidden", c14Case{N: n, Graph: g, Human: -1, AllHidden: true})
 	}
 	if tier == "thorough" {
 		n = 4
@@ -115,7 +121,11 @@ func c14Source(cs c14Case) string {
 		if cs.Human == i {
 			tag = " [~human]"
 		}
-		fmt.Fprintf(&b, "%s%s:\n    e:\n", c14Apps[i], tag)
+		eh := ""
+		if cs.AllHidden {
+			eh = " [~hidden]"
+		}
+		fmt.Fprintf(&b, "%s%s:\n    e%s:\n", c14Apps[i], tag, eh)
 		any := false
 		for pi, p := range pairs {
 			if p[0] != i || cs.Graph&(1<<uint(pi)) == 0 {
@@ -368,7 +378,7 @@ func (c14) Run(c core.Case) core.Outcome {
 						if !listed || human[e.Src] || e.Src == e.Tgt || excluded[e.Tgt] || human[e.Tgt] {
 							continue
 						}
-						if e.TgtEp == "h" {
+						if e.TgtEp == "h" || cs.AllHidden {
 							continue // hidden endpoint
 						}
 						found := false
@@ -387,8 +397,8 @@ func (c14) Run(c core.Case) core.Outcome {
 	}
 	o.Traces = configs
 	o.Extra = map[string]int{"configurations": configs, "with_arrows": drawn}
-	if drawn > 0 {
-		o.NonTrivial = fmt.Sprintf("%d/%d/%d", cs.N, cs.Graph, cs.Human)
+	if drawn > 0 || (cs.AllHidden && configs > 0) {
+		o.NonTrivial = fmt.Sprintf("%d/%d/%d/%v", cs.N, cs.Graph, cs.Human, cs.AllHidden)
 	}
 	return o
 }
